@@ -101,37 +101,48 @@ def setup(repo):
     TA_ARGS = {"outer": lambda: ([vec, vec],), "inner": lambda: (vec, vec), "kronecker": lambda: ([mat, mat],),
                "khatri_rao": lambda: ([mat, mat],), "mode_dot": lambda: (mat, mat, 0)}
 
+    import tensorly.cp_tensor as _cpmod
+    import tensorly.tucker_tensor as _tkmod
+    TA_TOP = {"khatri_rao": (_cpmod, lambda: ([mat, mat],)), "mode_dot": (_tkmod, lambda: (mat, mat, 0))}
+
     def observe():
-        o = {"be": {}, "ta": {}}
+        """What this thread sees: `state` = reported names, `attr` = what names looked up on the manager run on,
+        `top` = what import-time re-exports (tensorly.<fn>, tensorly.cp_tensor.khatri_rao ...) run on."""
+        o = {"be": {"state": {}, "attr": {}, "top": {}}, "ta": {"state": {}, "attr": {}, "top": {}}}
         try:
-            o["be"]["get"] = str(tl.get_backend())
-            o["be"]["cur"] = str(tl.backend.current_backend().backend_name)
+            o["be"]["state"]["get"] = str(tl.get_backend())
+            o["be"]["state"]["cur"] = str(tl.backend.current_backend().backend_name)
             r = tl.backend.arcsinh(0.0)
-            o["be"]["fdisp"] = r if isinstance(r, str) else "numpy"
-            o["be"]["adisp"] = str(tl.backend.backend_name)
+            o["be"]["attr"]["fdisp"] = r if isinstance(r, str) else "numpy"
+            o["be"]["attr"]["adisp"] = str(tl.backend.backend_name)
             r2 = tl.arcsinh(0.0)           # the wrapper re-exported at top level
-            o["be"]["topdisp"] = r2 if isinstance(r2, str) else "numpy"
+            o["be"]["top"]["topdisp"] = r2 if isinstance(r2, str) else "numpy"
             # three more dispatched functions, rotating through the probe list (manager attribute and top-level re-export)
             counter["n"] += 1
             for j in range(3):
                 name = BE_PROBES[(counter["n"] * 3 + j) % len(BE_PROBES)]
                 be_ran.name = "norun"
                 (getattr(tl.backend, name) if j % 2 == 0 else getattr(tl, name))(vec if name != "transpose" else mat)
-                o["be"]["p%d" % j] = be_ran.name
+                o["be"]["attr" if j % 2 == 0 else "top"]["p%d" % j] = be_ran.name
         except Exception as ex:
-            o["be"]["get"] = "error:" + type(ex).__name__
+            o["be"]["state"]["get"] = "error:" + type(ex).__name__
         try:
-            o["ta"]["get"] = str(tenalg.get_backend())
-            o["ta"]["cur"] = str(tenalg.current_backend().backend_name)
+            o["ta"]["state"]["get"] = str(tenalg.get_backend())
+            o["ta"]["state"]["cur"] = str(tenalg.current_backend().backend_name)
             ran.name = "norun"
             tenalg.outer([vec, vec])
-            o["ta"]["fdisp"] = ran.name
+            o["ta"]["attr"]["fdisp"] = ran.name
             name = TA_PROBES[counter["n"] % len(TA_PROBES)]
             ran.name = "norun"
             getattr(tenalg, name)(*TA_ARGS[name]())
-            o["ta"]["p0"] = ran.name
+            o["ta"]["attr"]["p0"] = ran.name
+            tname = ["khatri_rao", "mode_dot"][counter["n"] % 2]
+            mod, args = TA_TOP[tname]
+            ran.name = "norun"
+            getattr(mod, tname)(*args())
+            o["ta"]["top"]["p1"] = ran.name
         except Exception as ex:
-            o["ta"]["get"] = "error:" + type(ex).__name__
+            o["ta"]["state"]["get"] = "error:" + type(ex).__name__
         return o
     return MGR, observe
 
@@ -165,6 +176,13 @@ class Actor:
                 self.outbox.put(("ok", ""))
                 continue
             mgr = self.MGR[cmd["m"]]
+            if op in ("Static", "Dynamic"):
+                try:
+                    (mgr.use_static_dispatch if op == "Static" else mgr.use_dynamic_dispatch)()
+                    self.outbox.put(("ok", ""))
+                except Exception as ex:
+                    self.outbox.put(("raised", type(ex).__name__))
+                continue
             if op == "Set":
                 try:
                     mgr.set_backend(cmd["name"], local_threadsafe=cmd["loc"])
@@ -226,6 +244,8 @@ def main():
         # (re)establish Init for the importing thread and the shared defaults
         for m in ("be", "ta"):
             MGR[m].set_backend(DEFAULT[m])
+            if job.get("modes"):
+                MGR[m].use_dynamic_dispatch()
 
     def controller():
         try:
@@ -308,7 +328,9 @@ def main():
                     mgr = MGR[op.get("m", "be")]
                     outcome, exc = "ok", ""
                     try:
-                        if op["ev"] == "Set":
+                        if op["ev"] in ("Static", "Dynamic"):
+                            (mgr.use_static_dispatch if op["ev"] == "Static" else mgr.use_dynamic_dispatch)()
+                        elif op["ev"] == "Set":
                             mgr.set_backend(op["name"], local_threadsafe=op["loc"])
                         elif op["ev"] == "Enter":
                             cm = mgr.backend_context(op["name"], local_threadsafe=op["loc"])
